@@ -37,7 +37,7 @@ class Config:
     def __init__(self, alphabet: Sequence[tuple], closing: Sequence[str] = ('gates', 'play', 'resume'),
                  early_gates: bool = True, gate_cost: str = 'J', op_cost: str = 'K', resume_default: tuple = ('dflt',),
                  horizon: int = 3000, ops_when: str = 'live', max_closing: int = 40,
-                 slot_bound: Optional[int] = None) -> None:
+                 slot_bound: Optional[int] = None, burst: bool = False) -> None:
         self.alphabet = tuple(alphabet)
         self.closing = tuple(closing)
         self.early_gates = early_gates
@@ -50,6 +50,9 @@ class Config:
         self.cost_of: Any = None
         # closure search: at most this many environment events between two loop callbacks (None: no such limit)
         self.slot_bound = slot_bound
+        # burst mode: requests are only placed where the loop is quiescent and right behind one another in that same slot
+        # (long sequences at few places, the complement of few requests at every place)
+        self.burst = burst
 
 
 class ScriptedListener(plumpy.ProcessListener):
@@ -184,6 +187,7 @@ class World:
         self.n_entering = 0
         self.pre_pause_status: Any = None
         self.ops_in_slot = 0
+        self.burst_open = False
 
     # ---- hooks used by generated programs -------------------------------------------------
     def attach(self, proc: Any) -> None:
@@ -316,6 +320,11 @@ class World:
             return opts
         if self.cfg.slot_bound is not None and self.ops_in_slot >= self.cfg.slot_bound:
             return opts
+        if self.cfg.burst:
+            if not ready:
+                self.burst_open = True
+            if not self.burst_open:
+                return opts
         if live or post:
             for op in self.cfg.alphabet:
                 if op[0] == 'resume' and proc.state != ProcessState.WAITING and not post:
@@ -389,6 +398,8 @@ class World:
         self.n_choice += 1
         self.result.transitions += 1
         self.ops_in_slot = 0 if opts[c][0] == ('tick',) else self.ops_in_slot + 1
+        if opts[c][0] == ('tick',):
+            self.burst_open = False
         opts[c][2]()
         if self.ended:
             return False
